@@ -80,7 +80,7 @@ def run(ctx):
     ctx.base_trust([
         "C15 model (lean/GeosModel/Model/Index/STR.lean) is hand-written from TemplateSTRtree.h; std::sort is abstracted as 'some permutation'",
         "doubles are compared through an order-preserving integer key (Driver.f64Key); NaN ordinates excluded (null envelope = none)",
-        "other indexes (SimpleSTRtree, Quadtree, KdTree, interval trees, HotPixelIndex, MonotoneChain) are not modelled in this check",
+        "other indexes (SimpleSTRtree, legacy STRtree, SIRtree, SortedPackedIntervalRTree, Quadtree, KdTree, HotPixelIndex) are specified by the brute-force filter and tied by correspondence only (stream otheridx); MonotoneChain overlap search is not covered",
     ])
     proved = ctx.prove(PROPS)
     ok, out = verif.build_geos("rel")
@@ -96,14 +96,22 @@ def run(ctx):
     n_sl = 20000 if quick else 400000
     corr = {}
     found_input = False
-    for stream, n in (("strtree", n_hist), ("strslices", n_sl)):
+    for stream, n in (("strtree", n_hist), ("strslices", n_sl), ("otheridx", 20000 if quick else 600000)):
         r = verif.run_stream(exe, stream, ctx.seed, n, ctx.work, shards=min(verif.NPROC, 8))
         corr[stream] = {"cases": r["cases"], "disagreements": len(r["disagreements"]) + r.get("more_disagreements", 0),
                         "distribution": r["stats"]}
         ctx.cov["samples"] += r.get("samples", [])[:2]
         if r["error"]:
-            ctx.violation("correspondence stream %s could not run: %s" % (stream, r["error"]),
-                          {"kind": "tie-broken", "correspondence": stream, "detail": r["error"]}, nofail=True)
+            if "harness exit -" in r["error"] or "harness exit 1" in r["error"]:
+                # the harness (i.e. the library under it) crashed: the failing input is the one this seed generates
+                found_input = True
+                ctx.violation("index code crashed while running stream %s (seed %d): %s" % (stream, ctx.seed, r["error"][:300]),
+                              {"kind": "failing-input", "stream": stream, "seed": ctx.seed, "n": n,
+                               "replay_cmd": "%s %s <seed*1000003+shard> %d /tmp/out" % (exe, stream, n // 8), "detail": r["error"][-1500:]},
+                              signature={"stream": stream, "op": "crash"})
+            else:
+                ctx.violation("correspondence stream %s could not run: %s" % (stream, r["error"]),
+                              {"kind": "tie-broken", "correspondence": stream, "detail": r["error"]}, nofail=True)
             continue
         seen_sigs = []
         for idx, case, exp, got in r["disagreements"]:
@@ -121,6 +129,15 @@ def run(ctx):
                 ctx.violation("STRtree history: implementation output differs from the live-multiset specification (%s)" % json.dumps(sig),
                               {"kind": "failing-input", "stream": stream, "case": c2, "impl": impl, "spec": model,
                                "replay_cmd": "%s replay <file with case line>" % exe, "signature": sig}, signature=sig)
+            elif stream == "otheridx":
+                kind = case.split()[1] if len(case.split()) > 1 else "?"
+                sig = {"stream": "otheridx", "index": kind, "what": got.split()[2] if len(got.split()) > 2 else got}
+                if sig in seen_sigs:
+                    continue
+                seen_sigs.append(sig)
+                found_input = True
+                ctx.violation("index %s: query/remove result differs from the brute-force filter: %s" % (kind, got[:200]),
+                              {"kind": "failing-input", "stream": stream, "case": case, "verdict": got, "signature": sig}, signature=sig)
             else:
                 if "slices" in seen_sigs:
                     continue
